@@ -120,7 +120,7 @@ pub fn spec_for(property: &str) -> Option<CheckSpec> {
         "C01" => CheckSpec { property: "C01", level: "exploration", parts: vec![part("agent-c01", 3000, 300_000), part("agent-mix", 1000, 100_000), part("uplinks", 2000, 200_000), part("agent-dyn", 1000, 100_000)], assumptions: a() },
         "C02" => CheckSpec { property: "C02", level: "exploration", parts: vec![part("agent-c02", 3000, 300_000), part("agent-mix", 1000, 100_000), part("queues", 3000, 300_000), part("uplinks", 2000, 200_000), part("agent-dyn", 2000, 200_000)], assumptions: a() },
         "C03" => CheckSpec { property: "C03", level: "exploration", parts: vec![part("agent-c03", 3000, 300_000), part("agent-mix", 1000, 100_000), part("queues", 3000, 300_000), part("uplinks", 2000, 200_000)], assumptions: a() },
-        "C04" => CheckSpec { property: "C04", level: "exploration", parts: vec![part("agent-c04", 3000, 300_000), part("agent-c04f", 2000, 200_000), part("agent-mix", 1000, 100_000), part("uplinks", 3000, 300_000)], assumptions: a() },
+        "C04" => CheckSpec { property: "C04", level: "exploration", parts: vec![part("agent-c04", 3000, 300_000), part("agent-c04f", 2000, 200_000), part("agent-mix", 1000, 100_000), part("uplinks", 3000, 300_000), part("agent-c05", 1000, 100_000)], assumptions: a() },
         "C05" => CheckSpec { property: "C05", level: "fault_enumeration", parts: vec![part("agent-c05", 3000, 300_000), part("agent-c05f", 1500, 150_000), part("agent-mix", 1000, 100_000)], assumptions: a() },
         "C20" => CheckSpec { property: "C20", level: "exploration", parts: vec![part("agent-c20", 3000, 300_000), part("agent-c04f", 1000, 100_000), part("agent-mix", 1000, 100_000), part("links", 3000, 300_000)], assumptions: a() },
         "C06" => CheckSpec {
